@@ -122,7 +122,11 @@ def gen_layouts(ctx, thorough):
     n_sim = 100 if thorough else 12
     fam = (("del", dict(spec="GSpecSim", T=T, depth=14, deletes=True)),
            ("early", dict(spec="GSpecSim", T=T, depth=12, deletes=False, early=True)),
-           ("earlydel", dict(spec="GSpecSim", T=T, depth=14, deletes=True, early=True)))
+           ("earlydel", dict(spec="GSpecSim", T=T, depth=14, deletes=True, early=True)),
+           # one session of many one-sample commits (scenario plan 6): replayed with a 1-byte data type and a
+           # tiny file cap, the index channel rolls over at every commit while the data channel does not,
+           # so ONE data domain spans four or five contiguous index domains
+           ("dense", dict(spec="GSpecSim", T=T, depth=8, deletes=False, plan=6, maxlen=1, chansets='{{"I","D","V"}}')))
     res = {}
     errs = []
 
@@ -160,9 +164,14 @@ def gen_layouts(ctx, thorough):
     rnd.shuffle(uniq)
     uniq.sort(key=lambda x: -x[0])
     # interleave three strata so that the first n always hold inexact domain starts and rollover candidates
-    strata = [[], [], []]
+    strata = [[], [], [], []]
     for u in uniq:
         odd, multi = layout_traits(u[2])
+        if u[1] == "dense":
+            # keep the dense layouts whose data channel holds at least 4 samples
+            if sum(1 for v in u[2][-1]["st"]["cm"]["D"].values() if v) >= 4:
+                strata[3].append(u)
+            continue
         strata[0 if odd else 1 if multi else 2].append(u)
     out = []
     while any(strata):
@@ -225,6 +234,8 @@ def make_jobs(ctx, layouts, fams, maxt, n_layouts, concs_per, runs_per, thorough
     for li, (score, tag, h) in enumerate(layouts[:n_layouts]):
         for ci in range(concs_per):
             conc = conc_for(ctx.seed, li * 31 + ci)
+            if tag == "dense" and ci % 2 == 0:
+                conc["dtype"], conc["filecap"] = 2, 5
             runs = []
             for fam, share in (("sweep", 0.45), ("mixed", 0.3), ("sim", 0.25)):
                 pool = fams[fam]
